@@ -552,7 +552,6 @@ Section Entries.
   Qed.
 
   (* ---------------------------------------------------------------- shallow_clone_with_overrides( **over) *)
-  Definition merge_kw (base over : kwargs) : kwargs := fold_left (fun acc p => alist_set acc (fst p) (snd p)) over base.
 
   (* the keyword arguments in the order the SOURCE builds them: every non-None field value in field order, an
      overridden one replaced in place, new names appended ({**fields, **kw}); Struct/Entry.v [clone_kwargs] lists the
@@ -689,26 +688,264 @@ Section Entries.
   Theorem clone_kwargs_src_same_bindings : forall cd a over n,
       has_dup (map fst over) = false ->
       alist_get (clone_kwargs_src cd a over) n = alist_get (clone_kwargs cd a over) n.
+  Proof. reflexivity. Qed.
+
+  (* Struct/Entry.v [clone_kwargs] now lists the keywords in the source's order: an equality of keyword LISTS *)
+  Theorem generated_clone_is_entry : forall cd a over,
+      find_class e (c_name cd) = Some cd ->
+      names_ok a = true -> vals_defined a = true -> defaults_defined cd = true -> fields_ok cd = true ->
+      entry_view (Structure__shallow_clone_with_overrides (EH cd cd) (EW cd cd) (kw_dict over) (inst_state a)) =
+      run_entry re_match e (PStruct (c_name cd) a) (EClone over).
   Proof.
-    intros cd a over n Hd. unfold clone_kwargs_src. rewrite (merge_get over _ n Hd).
-    unfold clone_kwargs. rewrite alist_get_app.
-    assert (E : flat_map (fun k => if alist_has over k then []
-                                   else match getattr_opt cd a k with
-                                        | Some v => if not_none v then [(k, v)] else []
-                                        | None => []
-                                        end) (field_names cd) =
-                flat_map (fun k => if alist_has over k then [] else olist (cast_pick cd a k)) (field_names cd)).
-    { apply flat_map_ext. intro k. destruct (alist_has over k); [reflexivity|]. unfold cast_pick.
-      destruct (getattr_opt cd a k) as [v|]; [|reflexivity]. destruct (not_none v); reflexivity. }
-    rewrite E. rewrite (flat_map_skip_get (alist_has over) (cast_pick cd a) n).
-    2:{ intros k p H. unfold cast_pick in H. destruct (getattr_opt cd a k) as [v|]; [|discriminate H].
-        destruct (not_none v); inversion H; reflexivity. }
-    rewrite <- cast_kwargs_pick. unfold alist_has. destruct (alist_get over n); [reflexivity|].
-    destruct (alist_get (cast_kwargs cd cd a) n); reflexivity.
+    intros cd a over Hd Ha Hva Hdd Hft. rewrite (generated_clone_is_constructor cd a over Hd Ha Hva Hdd Hft).
+    unfold run_entry, entry_plan, with_instance, with_class. rewrite Hd. reflexivity.
+  Qed.
+
+  (* ---------------------------------------------------------------- from_other_class(<a mapping>, ignore_props=ig, **over) *)
+  Definition ig_val (ig : list pystr) : pyval := match ig with [] => PNone | _ => PList (map PStr ig) end.
+
+  (* the keywords with an ignore list: Struct/Entry.v [from_mapping_kwargs] is the case ig = [] *)
+  Definition fm_pick (src over : kwargs) (ig : list pystr) (k : pystr) : option (pystr * pyval) :=
+    if str_in k ig || alist_has over k then None
+    else Some (k, match alist_get src k with Some v => v | None => PNone end).
+  Definition from_mapping_kwargs_ig (c : classdef) (src over : kwargs) (ig : list pystr) : kwargs :=
+    flat_map (fun k => olist (fm_pick src over ig k)) (field_names c) ++ over.
+
+  Lemma from_mapping_ig_nil c src over : from_mapping_kwargs_ig c src over [] = from_mapping_kwargs c src over.
+  Proof.
+    unfold from_mapping_kwargs_ig, from_mapping_kwargs. f_equal. apply flat_map_ext. intro k. unfold fm_pick.
+    cbn [str_in existsb orb]. destruct (alist_has over k); reflexivity.
+  Qed.
+
+  Lemma in_str_list k ig : py_in_dyn (PStr k) (PList (map PStr ig)) = Ok (str_in k ig).
+  Proof. exact (in_names_list k ig). Qed.
+
+  Theorem generated_from_mapping_is_entry : forall ct src over ig s,
+      find_class e (c_name ct) = Some ct -> fields_ok ct = true ->
+      has_dup (map fst over) = false -> vals_defined over = true -> vals_defined src = true ->
+      entry_view (Structure__from_other_class (EH ct ct) (EW ct ct) (ref (cobj (c_name ct))) (kw_dict src) (ig_val ig)
+                    (kw_dict over) s) =
+      construct re_match e ct (from_mapping_kwargs_ig ct src over ig).
+  Proof.
+    intros ct src over ig s Ht Hft Hod Hov Hsv.
+    pose proof (resolves_ct ct ct) as Rt.
+    unfold Structure__from_other_class.
+    change (kw_dict src) with (PDict (pairs src)).
+    rewrite (bindM_ok _ _ s s (PBool true) eq_refl). cbv zeta.
+    assert (HI : (c <~ (ret (py_truthy (ig_val ig))) ;; if c then (ret (ig_val ig)) else (ret (PList []))) s = (s, inl (PList (map PStr ig)))).
+    { destruct ig; reflexivity. }
+    rewrite (bindM_ok _ _ _ _ _ HI). cbv zeta.
+    rewrite (class_fields ct ct ct Rt). rewrite (bindM_ok _ _ s s (fields_map ct) eq_refl).
+    assert (Hit : PyOpsVersioned.py_iter (fields_map ct) = Ok (map PStr (field_names ct))).
+    { unfold fields_map, PyOpsVersioned.py_iter, field_names. rewrite !map_map. reflexivity. }
+    rewrite Hit. rewrite (bindM_ok _ _ s s (map PStr (field_names ct)) eq_refl).
+    change (kw_dict over) with (PDict (pairs over)).
+    assert (HK : obj_getattr_def (EH ct ct) (ref (cobj (c_name ct))) (s2p "_constants") (PDict []) = Ok (PDict [])).
+    { unfold obj_getattr_def, ref. rewrite pystr_eqb_refl. rewrite Rt. reflexivity. }
+    assert (HF : forall k, In k (field_names ct) ->
+       (fun v_k_7 : pyval =>
+          (c <~ (andM (notM (lift (py_in_dyn v_k_7 (PList (map PStr ig)))))
+                      (fun _ => (andM (notM (lift (py_in_dyn v_k_7 (PDict (pairs over)))))
+                         (fun _ => (andM (t8 <~ lift (obj_getattr_def (EH ct ct) (ref (cobj (c_name ct))) (s2p "_constants") (PDict [])) ;;
+                                          notM (lift (py_in_dyn v_k_7 t8)))
+                                    (fun _ => (orM (hasattr_dynM (EH ct ct) (PDict (pairs src)) v_k_7)
+                                                   (fun _ => (ret (py_truthy (PBool true))))))))))) ;;
+           if c then (t11 <~ (c0 <~ (ret (py_truthy (PBool true))) ;;
+                              if c0 then (t9 <~ lift (obj_or_dict_get (EH ct ct) (PDict (pairs src)) v_k_7 PNone) ;; ret t9)
+                              else (t10 <~ getattr_dynM (EH ct ct) (PDict (pairs src)) v_k_7 (Some PNone) ;; ret t10)) ;;
+                      ret (Some (v_k_7, t11)))
+           else ret None)) (PStr k) s =
+       (s, inl (option_map ppair (fm_pick src over ig k)))).
+    { intros k Hk. cbv beta.
+      assert (C1 : notM (lift (py_in_dyn (PStr k) (PList (map PStr ig)))) s = (s, inl (negb (str_in k ig)))).
+      { apply notM_eval. rewrite in_str_list. reflexivity. }
+      assert (C2 : notM (lift (py_in_dyn (PStr k) (PDict (pairs over)))) s = (s, inl (negb (alist_has over k)))).
+      { apply notM_eval. rewrite in_pairs. reflexivity. }
+      assert (C3 : (t8 <~ lift (obj_getattr_def (EH ct ct) (ref (cobj (c_name ct))) (s2p "_constants") (PDict [])) ;;
+                    notM (lift (py_in_dyn (PStr k) t8))) s = (s, inl (negb false))).
+      { rewrite HK. reflexivity. }
+      assert (C4 : orM (hasattr_dynM (EH ct ct) (PDict (pairs src)) (PStr k)) (fun _ => (ret (py_truthy (PBool true)))) s =
+                   (s, inl (false || true))) by reflexivity.
+      rewrite (bindM_ok _ _ _ _ _ (andM_eval _ _ _ _ _ C1 (andM_eval _ _ _ _ _ C2 (andM_eval _ _ _ _ _ C3 C4)))).
+      unfold fm_pick. destruct (str_in k ig); [reflexivity|]. destruct (alist_has over k); [reflexivity|]. cbn [negb andb orb].
+      rewrite bindM_assoc. rewrite (bindM_ok _ _ s s true eq_refl). cbv beta iota.
+      unfold obj_or_dict_get, PyOpsVersioned.py_dict_get. cbn [py_hashable']. rewrite dict_get_pairs. reflexivity. }
+    rewrite (bindM_ok _ _ _ _ _ (filterMM_names _ (fm_pick src over ig) s (field_names ct) HF)).
+    set (B := flat_map (fun k => olist (fm_pick src over ig k)) (field_names ct)).
+    assert (Hnd : has_dup (map fst B) = false).
+    { apply flat_map_keys.
+      - unfold fields_ok in Hft. apply andb_true_iff in Hft. destruct Hft as [_ H]. apply negb_true_iff, H.
+      - intros k p H. unfold fm_pick in H. destruct (str_in k ig || alist_has over k); inversion H; reflexivity. }
+    assert (Hud : forallb (fun p => negb (undefined_ref (snd p))) B = true).
+    { apply forallb_forall. intros p Hp. apply in_flat_map in Hp.
+      destruct Hp as [k [_ Hp]]. unfold fm_pick in Hp. destruct (str_in k ig || alist_has over k); [destruct Hp|].
+      destruct Hp as [<-|[]]. cbn [snd]. destruct (alist_get src k) as [v|] eqn:Eg; [|reflexivity].
+      clear -Hsv Eg. induction src as [|[n y] t IH]; [discriminate Eg|].
+      cbn [vals_defined forallb snd] in Hsv. apply andb_true_iff in Hsv. destruct Hsv as [H1 H2].
+      cbn [alist_get] in Eg. destruct (pystr_eqb n k); [inversion Eg; subst; exact H1 | apply IH; assumption]. }
+    assert (Hfresh : forall p, In p over -> alist_get B (fst p) = None).
+    { intros p Hp. apply alist_get_none_notin. destruct (str_in (fst p) (map fst B)) eqn:E; [|reflexivity].
+      apply str_in_true in E. apply in_map_iff in E. destruct E as [q [Eq Hq]]. apply in_flat_map in Hq.
+      destruct Hq as [k [_ Hq]]. unfold fm_pick in Hq. destruct (str_in k ig); [destruct Hq|]. cbn [orb] in Hq.
+      destruct (alist_has over k) eqn:Eo; [destruct Hq|].
+      destruct Hq as [<-|[]]. cbn [fst] in Eq. subst k.
+      rewrite alist_has_keys2 in Eo. assert (str_in (fst p) (map fst over) = true) by (apply str_in_In, in_map, Hp). congruence. }
+    rewrite (dict_of_pairs _ Hnd). rewrite (bindM_ok _ _ s s (PDict (pairs B)) eq_refl). cbv zeta.
+    rewrite (bindM_ok _ _ s s (pairs B) eq_refl).
+    change (filterMM _ (pairs B)) with (filterMM undef_filter (pairs B)).
+    rewrite (bindM_ok _ _ _ _ _ (undef_filter_id s _ Hud)).
+    rewrite (dict_of_pairs _ Hnd). rewrite (bindM_ok _ _ s s (PDict (pairs B)) eq_refl).
+    change (PDict []) with (PDict (pairs [])).
+    rewrite (merge_pairs [] B Hnd (fun _ _ => eq_refl)). cbn [app].
+    rewrite (bindM_ok _ _ s s (PDict (pairs B)) eq_refl).
+    rewrite (bindM_ok _ _ s s (pairs over) eq_refl).
+    change (filterMM _ (pairs over)) with (filterMM undef_filter (pairs over)).
+    rewrite (bindM_ok _ _ _ _ _ (undef_filter_id s _ Hov)).
+    rewrite (dict_of_pairs _ Hod). rewrite (bindM_ok _ _ s s (PDict (pairs over)) eq_refl).
+    rewrite (merge_pairs B over Hod Hfresh). rewrite (bindM_ok _ _ s s (PDict (pairs (B ++ over))) eq_refl). cbv zeta.
+    unfold from_mapping_kwargs_ig. fold B.
+    unfold tryM. unfold bindM at 1. rewrite (new_is_construct ct ct ct _ s Rt (or_introl eq_refl) Ht Ht).
+    destruct (construct re_match e ct (B ++ over)) as [v|x]; [reflexivity|].
+    unfold lift, raiseM. unfold catches. cbn [x_cls existsb].
+    destruct (negb (model_level x) && (exc_subclass x TypeError || false)) eqn:Ec; [|reflexivity].
+    unfold obj_getattr, ref. rewrite pystr_eqb_refl. rewrite Rt.
+    change (class_attr e ct (s2p "__name__")) with (Some (PStr (c_name ct))).
+    rewrite (bindM_ok _ _ s s false).
+    - reflexivity.
+    - unfold bindM, lift, ret. cbn [PyOpsDerive.py_format]. unfold py_substr, exc_str. cbn [x_cls x_arg w_repr_str EW entry_world].
+      change (s2p ": missing a required argument") with (58%N :: s2p " missing a required argument").
+      destruct x; rewrite str_contains_nil; reflexivity.
+  Qed.
+
+  Corollary generated_from_mapping_is_run_entry : forall ct src over cur s,
+      find_class e (c_name ct) = Some ct -> fields_ok ct = true ->
+      has_dup (map fst over) = false -> vals_defined over = true -> vals_defined src = true ->
+      entry_view (Structure__from_other_class (EH ct ct) (EW ct ct) (ref (cobj (c_name ct))) (kw_dict src) PNone
+                    (kw_dict over) s) =
+      run_entry re_match e cur (EFromMapping (c_name ct) src over).
+  Proof.
+    intros ct src over cur s Ht Hft Hod Hov Hsv.
+    change PNone with (ig_val []).
+    rewrite (generated_from_mapping_is_entry ct src over [] s Ht Hft Hod Hov Hsv). rewrite from_mapping_ig_nil.
+    unfold run_entry, entry_plan, with_class. rewrite Ht. reflexivity.
+  Qed.
+  (* from_other_class(<an instance>, ignore_props=ig, **over) *)
+  Definition fo_pick_ig (cd : classdef) (a : attrs) (over : kwargs) (ig : list pystr) (k : pystr) : option (pystr * pyval) :=
+    if str_in k ig || alist_has over k then None
+    else match getattr_opt cd a k with Some v => Some (k, v) | None => None end.
+  Definition from_other_kwargs_ig (cd ct : classdef) (a : attrs) (over : kwargs) (ig : list pystr) : kwargs :=
+    flat_map (fun k => olist (fo_pick_ig cd a over ig k)) (field_names ct) ++ over.
+
+  Lemma from_other_ig_nil cd ct a over : from_other_kwargs_ig cd ct a over [] = from_other_kwargs cd ct a over.
+  Proof.
+    unfold from_other_kwargs_ig, from_other_kwargs. f_equal. apply flat_map_ext. intro k. unfold fo_pick_ig.
+    cbn [str_in existsb orb]. destruct (alist_has over k); [reflexivity|]. destruct (getattr_opt cd a k); reflexivity.
+  Qed.
+
+  Theorem generated_from_other_ignore : forall cd ct a over ig,
+      find_class e (c_name cd) = Some cd -> find_class e (c_name ct) = Some ct ->
+      names_ok a = true -> vals_defined a = true -> defaults_defined cd = true -> fields_ok ct = true ->
+      has_dup (map fst over) = false -> vals_defined over = true ->
+      entry_view (Structure__from_other_class (EH cd ct) (EW cd ct) (ref (cobj (c_name ct))) (ref (s2p "self")) (ig_val ig)
+                    (kw_dict over) (inst_state a)) =
+      construct re_match e ct (from_other_kwargs_ig cd ct a over ig).
+  Proof.
+    intros cd ct a over ig Hd Ht Ha Hva Hdd Hft Hod Hov.
+    pose proof (resolves_ct cd ct) as Rt.
+    set (s := inst_state a).
+    unfold Structure__from_other_class.
+    rewrite (bindM_ok _ _ s s (PBool false) eq_refl). cbv zeta.
+    assert (HI : (c <~ (ret (py_truthy (ig_val ig))) ;; if c then (ret (ig_val ig)) else (ret (PList []))) s = (s, inl (PList (map PStr ig))))
+      by (destruct ig; reflexivity).
+    rewrite (bindM_ok _ _ _ _ _ HI). cbv zeta.
+    rewrite (class_fields cd ct ct Rt). rewrite (bindM_ok _ _ s s (fields_map ct) eq_refl).
+    assert (Hit : PyOpsVersioned.py_iter (fields_map ct) = Ok (map PStr (field_names ct))).
+    { unfold fields_map, PyOpsVersioned.py_iter, field_names. rewrite !map_map. reflexivity. }
+    rewrite Hit. rewrite (bindM_ok _ _ s s (map PStr (field_names ct)) eq_refl).
+    change (kw_dict over) with (PDict (pairs over)).
+    assert (HK : obj_getattr_def (EH cd ct) (ref (cobj (c_name ct))) (s2p "_constants") (PDict []) = Ok (PDict [])).
+    { unfold obj_getattr_def, ref. rewrite pystr_eqb_refl. rewrite Rt. reflexivity. }
+    assert (HF : forall k, In k (field_names ct) ->
+       (fun v_k_7 : pyval =>
+          (c <~ (andM (notM (lift (py_in_dyn v_k_7 (PList (map PStr ig)))))
+                      (fun _ => (andM (notM (lift (py_in_dyn v_k_7 (PDict (pairs over)))))
+                         (fun _ => (andM (t8 <~ lift (obj_getattr_def (EH cd ct) (ref (cobj (c_name ct))) (s2p "_constants") (PDict [])) ;;
+                                          notM (lift (py_in_dyn v_k_7 t8)))
+                                    (fun _ => (orM (hasattr_dynM (EH cd ct) (ref (s2p "self")) v_k_7)
+                                                   (fun _ => (ret (py_truthy (PBool false))))))))))) ;;
+           if c then (t11 <~ (c0 <~ (ret (py_truthy (PBool false))) ;;
+                              if c0 then (t9 <~ lift (obj_or_dict_get (EH cd ct) (ref (s2p "self")) v_k_7 PNone) ;; ret t9)
+                              else (t10 <~ getattr_dynM (EH cd ct) (ref (s2p "self")) v_k_7 (Some PNone) ;; ret t10)) ;;
+                      ret (Some (v_k_7, t11)))
+           else ret None)) (PStr k) s =
+       (s, inl (option_map ppair (fo_pick_ig cd a over ig k)))).
+    { intros k Hk. pose proof (field_name_ok ct k Hft Hk) as Hok. cbv beta.
+      assert (C1 : notM (lift (py_in_dyn (PStr k) (PList (map PStr ig)))) s = (s, inl (negb (str_in k ig)))).
+      { apply notM_eval. rewrite in_str_list. reflexivity. }
+      assert (C2 : notM (lift (py_in_dyn (PStr k) (PDict (pairs over)))) s = (s, inl (negb (alist_has over k)))).
+      { apply notM_eval. rewrite in_pairs. reflexivity. }
+      assert (C3 : (t8 <~ lift (obj_getattr_def (EH cd ct) (ref (cobj (c_name ct))) (s2p "_constants") (PDict [])) ;;
+                    notM (lift (py_in_dyn (PStr k) t8))) s = (s, inl (negb false))).
+      { rewrite HK. reflexivity. }
+      assert (C4 : orM (hasattr_dynM (EH cd ct) (ref (s2p "self")) (PStr k)) (fun _ => (ret (py_truthy (PBool false)))) s =
+                   (s, inl ((match getattr_opt cd a k with Some _ => true | None => false end) || false))).
+      { apply orM_eval; [exact (hasattr_self cd ct a k Hok) | reflexivity]. }
+      rewrite (bindM_ok _ _ _ _ _ (andM_eval _ _ _ _ _ C1 (andM_eval _ _ _ _ _ C2 (andM_eval _ _ _ _ _ C3 C4)))).
+      unfold fo_pick_ig. destruct (str_in k ig); [reflexivity|]. destruct (alist_has over k); [reflexivity|]. cbn [negb andb orb].
+      destruct (getattr_opt cd a k) as [v|] eqn:Eg; cbn [orb]; [|reflexivity].
+      rewrite bindM_assoc. rewrite (bindM_ok _ _ s s false eq_refl). cbv beta iota.
+      rewrite bindM_assoc. unfold s. rewrite (bindM_ok _ _ _ _ _ (getattr_self_def cd ct a k Hok)). rewrite Eg. reflexivity. }
+    rewrite (bindM_ok _ _ _ _ _ (filterMM_names _ (fo_pick_ig cd a over ig) s (field_names ct) HF)).
+    set (B := flat_map (fun k => olist (fo_pick_ig cd a over ig k)) (field_names ct)).
+    assert (Hnd : has_dup (map fst B) = false).
+    { apply flat_map_keys.
+      - unfold fields_ok in Hft. apply andb_true_iff in Hft. destruct Hft as [_ H]. apply negb_true_iff, H.
+      - intros k p H. unfold fo_pick_ig in H. destruct (str_in k ig || alist_has over k); [discriminate H|].
+        destruct (getattr_opt cd a k); inversion H; reflexivity. }
+    assert (Hud : forallb (fun p => negb (undefined_ref (snd p))) B = true).
+    { apply forallb_forall. intros p Hp. apply in_flat_map in Hp.
+      destruct Hp as [k [_ Hp]]. unfold fo_pick_ig in Hp. destruct (str_in k ig || alist_has over k); [destruct Hp|].
+      destruct (getattr_opt cd a k) as [v|] eqn:Eg; [|destruct Hp]. destruct Hp as [<-|[]]. cbn [snd].
+      apply negb_true_iff. exact (getattr_opt_defined cd a k v Hva Hdd Eg). }
+    assert (Hfresh : forall p, In p over -> alist_get B (fst p) = None).
+    { intros p Hp. apply alist_get_none_notin. destruct (str_in (fst p) (map fst B)) eqn:E; [|reflexivity].
+      apply str_in_true in E. apply in_map_iff in E. destruct E as [q [Eq Hq]]. apply in_flat_map in Hq.
+      destruct Hq as [k [_ Hq]]. unfold fo_pick_ig in Hq. destruct (str_in k ig); [destruct Hq|]. cbn [orb] in Hq. destruct (alist_has over k) eqn:Eo; [destruct Hq|].
+      destruct (getattr_opt cd a k); [|destruct Hq]. destruct Hq as [<-|[]]. cbn [fst] in Eq. subst k.
+      rewrite alist_has_keys2 in Eo. assert (str_in (fst p) (map fst over) = true) by (apply str_in_In, in_map, Hp). congruence. }
+    rewrite (dict_of_pairs _ Hnd). rewrite (bindM_ok _ _ s s (PDict (pairs B)) eq_refl). cbv zeta.
+    rewrite (bindM_ok _ _ s s (pairs B) eq_refl).
+    change (filterMM _ (pairs B)) with (filterMM undef_filter (pairs B)).
+    rewrite (bindM_ok _ _ _ _ _ (undef_filter_id s _ Hud)).
+    rewrite (dict_of_pairs _ Hnd). rewrite (bindM_ok _ _ s s (PDict (pairs B)) eq_refl).
+    change (PDict []) with (PDict (pairs [])).
+    rewrite (merge_pairs [] B Hnd (fun _ _ => eq_refl)). cbn [app].
+    rewrite (bindM_ok _ _ s s (PDict (pairs B)) eq_refl).
+    rewrite (bindM_ok _ _ s s (pairs over) eq_refl).
+    change (filterMM _ (pairs over)) with (filterMM undef_filter (pairs over)).
+    rewrite (bindM_ok _ _ _ _ _ (undef_filter_id s _ Hov)).
+    rewrite (dict_of_pairs _ Hod). rewrite (bindM_ok _ _ s s (PDict (pairs over)) eq_refl).
+    rewrite (merge_pairs B over Hod Hfresh). rewrite (bindM_ok _ _ s s (PDict (pairs (B ++ over))) eq_refl). cbv zeta.
+    unfold from_other_kwargs_ig. fold B.
+    unfold tryM. unfold bindM at 1. rewrite (new_is_construct cd ct ct _ s Rt (or_introl eq_refl) Hd Ht).
+    destruct (construct re_match e ct (B ++ over)) as [v|x]; [reflexivity|].
+    unfold lift, raiseM. unfold catches. cbn [x_cls existsb].
+    destruct (negb (model_level x) && (exc_subclass x TypeError || false)) eqn:Ec; [|reflexivity].
+    unfold obj_getattr, ref. rewrite pystr_eqb_refl. rewrite Rt.
+    change (class_attr e ct (s2p "__name__")) with (Some (PStr (c_name ct))).
+    rewrite (bindM_ok _ _ s s false).
+    - reflexivity.
+    - unfold bindM, lift, ret. cbn [PyOpsDerive.py_format]. unfold py_substr, exc_str. cbn [x_cls x_arg w_repr_str EW entry_world].
+      change (s2p ": missing a required argument") with (58%N :: s2p " missing a required argument").
+      destruct x; rewrite str_contains_nil; reflexivity.
   Qed.
 End Entries.
 
+Print Assumptions generated_from_other_ignore.
+Print Assumptions generated_from_mapping_is_entry.
+Print Assumptions generated_from_mapping_is_run_entry.
 Print Assumptions generated_cast_to_is_entry.
 Print Assumptions generated_from_other_is_entry.
 Print Assumptions generated_clone_is_constructor.
 Print Assumptions clone_kwargs_src_same_bindings.
+Print Assumptions generated_clone_is_entry.
